@@ -7,6 +7,6 @@ git -C /repo worktree add -q --detach $WT HEAD
 for name in "$@"; do
   p=${name%%-*}
   echo "== $name"
-  tools/keepseed.py $p $WT /verif/seeded/$name $name 2>&1 | grep -E "\"applies|\"detected|kept|NOT KEPT|existing_tests_pass|\"demo_"
+  tools/keepseed.py $p $WT /verif/seeded/$name $name $SEEDARGS 2>&1 | grep -E "\"applies|\"detected|kept|NOT KEPT|existing_tests_pass|\"demo_"
 done
 git -C /repo worktree remove --force $WT
